@@ -243,4 +243,31 @@ PROPS["C13"] = {
     "level_note": "Trusted: Lean kernel, wsfacts translator, harness; compress/flate not modelled.",
 }
 
+PROPS["C14"] = {
+    "lean": ["WsVerif.Props.C14", "WsVerif.Bridge.C14"],
+    "rule": "Full grid of 324 server configurations (2x2x9x9) x 360 single offers (2x2x9x10, incl. value-less client_max_window_bits) through "
+            "Extension.Negotiate + Accepted (all in thorough, 1/5 in quick); Parameters.Option -> Parse for all 324 configurations; random "
+            "lists of 1..4 items over 12 offers / a foreign extension / an unknown parameter / Reset; malformed values for each of 6 keys x "
+            "20 values (\":\", \"1:\", overflowing 2^64+10, 2^32+10, 266, leading zeros, signs, blanks, non-ASCII digits); duplicated "
+            "parameters in every order and with/without values.",
+    "exhaustive_families": ["neg (configuration x single-offer grid, thorough)", "popt"],
+    "trusted_base": [
+        "Spec/Negotiate.lean: LegalAnswer = RFC 7692 §7.1.1.1, 7.1.2.1, 7.1.2.2; wellFormedParams = the offer grammar of §7",
+        "Model/Negotiate.lean mirrors wsflate/extension.go and parameters.go by hand; tied by exact correspondence on the whole grid and by "
+        "Bridge.C14 (the source-order list of Negotiate's conditions, Extension.Reset's assignments, isValidBits and WindowBits.Defined "
+        "regenerated from the source)",
+        "httphead.Option is modelled as name + ordered (key,value) list; the harness builds Options with Parameters.Set",
+    ],
+    "assumptions": COMMON_ASSUME + ["configured window bits are unset or 8..15 (CfgValid)", "leading zeros in window values are left open",
+                                    "'acceptable' = what a fresh negotiator accepts (the library declines some offers a legal answer exists for)"],
+    "level_text": "Kernel-checked for EVERY configuration and EVERY list of offers (no grid bound): at most one offer is accepted; it is the first "
+                  "acceptable one in the client's order; the decision on a not-yet-accepted negotiator is independent of earlier declined or "
+                  "rejected offers; the answer is a LegalAnswer per RFC 7692 §7.1 to the accepted offer; whatever Parse accepts has only the four "
+                  "known names, no duplicates, value-less *_no_context_takeover and plain-decimal window values in 8..15 (so unknown, duplicated "
+                  "and ill-valued parameters are errors); Option then Parse is the identity on all 360 parameter sets; Reset = fresh. The "
+                  "unchanged tree violated the property (F6 inverted server_max_window_bits comparison, F7 value-less duplicate undetected, F8 "
+                  "':' and overflowing values read as 10) — found by the oracle, repaired by fix commits 554a1dc, d55c418, 363140c.",
+    "level_note": "Trusted: Lean kernel, Spec/Negotiate.lean, harness; the response header as written by ws.Upgrader is exercised under C09/C11.",
+}
+
 NOT_APPLICABLE = {}
